@@ -107,6 +107,7 @@ def explore_parallel(pool, jobs, tier, nproc, max_paths=400000):
             for u in und:
                 if u not in fr["undecided"]:
                     fr["undecided"].append(u)
+            fr.setdefault("sites", []).extend(rep.get("sites") or [])
             for r in res:
                 results.setdefault((r["fn"], r["name"], tuple(r.get("path") or ()), r.get("line")), r)
             backlog += [(key, case, p) for p in pend]
@@ -118,8 +119,12 @@ def explore_parallel(pool, jobs, tier, nproc, max_paths=400000):
             n = 1 if len(backlog) < nproc * 6 else 4
             submit(backlog[:n])
             backlog = backlog[n:]
-    # a contract case none of whose paths reaches an exit is vacuous
+    # a contract case none of whose paths reaches an exit is vacuous; so is a call site / loop head that is never consistent
+    from pyvc.engine import vacuous_sites
     for key, fr in fn_reports.items():
+        for u in vacuous_sites(fr.pop("sites", [])):
+            if u not in fr["undecided"]:
+                fr["undecided"].append(u)
         for cn, cs in fr["cases"].items():
             if not any(k != "(cut)" for k in cs["exits"]) and not fr["undecided"]:
                 fr["undecided"].append(f"{cn}: no path reaches an exit (vacuous contract case)")
